@@ -39,7 +39,7 @@ def items(tier):
         descs += list(skel.depth2(ALL_KINDS, [k for k in ALL_KINDS if k not in ("list2", "array2")]))
         descs += list(skel.depth3(D3))
     else:
-        descs += list(skel.depth2(ALL_KINDS, COMPOSITE_CHILDREN))
+        descs += list(skel.depth2(ALL_KINDS, COMPOSITE_CHILDREN))[::2]     # quick: every second (parent, slot, child)
     v = lambda n, t="num": ("v", n, t)  # noqa: E731
     descs += [
         ("sub1", v("a1", "arr"), ("sub1", v("a1", "arr"), v("x2"))),
@@ -176,7 +176,7 @@ def check_tree(desc, tier, twin=False):
                 outs.append((cls.__name__, ("exc", repr(e))))
         # call history on ONE instance: whole tree, every distinct subexpression, whole tree again;
         # every answer must be the answer of a fresh analysis (memo tables / CSE caches must not leak)
-        if hashable:
+        if hashable and r["comp"] == 0:      # the 24 settings with composite_leaves left alone
             subs_ = [n for n in distinct_nodes(expr) if isinstance(n, p.Expression)][:8]
             for cls in (DependencyMapper, CachedDependencyMapper):
                 try:
